@@ -16,6 +16,7 @@ def regen(ctx):
         f + "counter.go:Counter.WaitIsBelow", f + "counter.go:Counter.WaitIsAbove",
         f + "stack.go:Stack.Push", f + "stack.go:Stack.Pop", f + "stack.go:Stack.PopOrWait",
         f + "stack.go:Stack.WaitSizeIsBelow", f + "stack.go:Stack.WaitSizeIsAbove", f + "stack.go:Stack.SignalShutdown",
+        f + "counter.go:type=Counter", f + "stack.go:type=Stack", f + "starvingmutex.go:type=StarvingMutex", f + "dagmutex.go:type=DAGMutex",
     ], extra_methods=["Wait", "Signal", "Broadcast"])
 
 
@@ -33,7 +34,7 @@ SPEC = {
                  "C17_dag_unlock_unheld_panics", "C17_dag_unlock_wrong_mode_old_witness",
                  "C17_dag_composed_monitors", "C17_dag_composed_exclusion", "C17_dag_composed_deadlock_free", "C17_dag_composed_no_panic",
                  "C17_wait_iff_returns_only_if", "C17_wait_iff_no_lost_wakeup", "C17_wait_iff_quiescent",
-                 "C17_driver_outcomes_reachable", "C17_skeleton_starvingmutex", "C17_skeleton_dagmutex", "C17_skeleton_counter", "C17_skeleton_stack"],
+                 "C17_driver_outcomes_reachable", "C17_skeleton_starvingmutex", "C17_skeleton_dagmutex", "C17_skeleton_counter", "C17_skeleton_stack", "C17_skeleton_types"],
     "trusted_base": [
         "hand-written protocol models Hive/Model/SyncMutex.lean (StarvingMutex monitor), SyncMutexDag.lean (DAGMutex over abstract "
         "per-entity reader/writer locks), SyncMutexWait.lean (Counter/Stack waits); ties: scripted-arrival conformance, stress traces, "
